@@ -162,9 +162,10 @@ def run_property(prop, tier="quick", seed=0, write_baseline=False, only=None, ve
                 continue
             retry.append(ob)
     if retry:
-        # load-induced flips: retry (in parallel) with a doubled budget, only what the baseline had proved
-        again = [ob for ob in retry if ob.name in load_baseline().get(prop, [])]
-        v2s = solve.solve_all(again, timeout_ms=2 * solve.Z3_TIMEOUT_MS) if again else {}
+        # load-induced flips: everything still undecided is solved again with a tripled budget and half the worker
+        # processes (a real solver run; its `unsat` is confirmed by the second solver like any other)
+        again = list(retry)
+        v2s = solve.solve_all(again, timeout_ms=3 * solve.Z3_TIMEOUT_MS, workers=8) if again else {}
         for ob in again:
             v2 = v2s[ob.name]
             v2.time_s += verdicts[ob.name].time_s
